@@ -1,33 +1,18 @@
 package main
 
 import (
-	"encoding/json"
 	"fmt"
-	"os"
-	"runtime/debug"
 
-	"github.com/go-swagger/go-swagger/cmd/swagger/commands/diff"
-	"verif/harness/internal/dimpl"
+	"github.com/go-openapi/swag"
+	"gopkg.in/yaml.v3"
 )
 
 func main() {
-	b, _ := os.ReadFile(os.Args[1])
-	var o struct {
-		Input struct {
-			A, B  json.RawMessage
-			Edits []string
-		}
+	for _, s := range []string{"\nleading newline", ".inf", ".NaN", "<<", "=", "2001-12-14", "block\ntrailing\n"} {
+		b, _ := yaml.Marshal(map[string]interface{}{"k": s})
+		var v map[string]interface{}
+		err := yaml.Unmarshal(b, &v)
+		j, err2 := swag.YAMLToJSON(func() interface{} { var n yaml.Node; _ = yaml.Unmarshal(b, &n); return &n }())
+		fmt.Printf("%q -> %q -> %#v err=%v | swag: %s err=%v\n", s, string(b), v["k"], err, string(j), err2)
 	}
-	_ = json.Unmarshal(b, &o)
-	fmt.Println("edits:", o.Input.Edits)
-	defer func() {
-		if r := recover(); r != nil {
-			fmt.Println("PANIC", r)
-			fmt.Println(string(debug.Stack()))
-		}
-	}()
-	sa, _ := dimpl.Load(o.Input.A)
-	sb, _ := dimpl.Load(o.Input.B)
-	ds, err := diff.Compare(sa, sb)
-	fmt.Println(len(ds), err)
 }
